@@ -136,6 +136,33 @@ func (m c20model) scn() *Scn {
 		}
 		files["inc/.env"] = dotenv + "UNRELATED=1\n"
 		s.Main = []string{"compose.yaml"}
+	case "two-includes":
+		// as include-own-env, plus a sibling included project that gives the same variables other values in its own .env
+		// and declares a secret sourced from the first of them: each included project sees its own environment
+		files["compose.yaml"] = "include:\n  - ./inc/res.yaml\n  - ./inc2/probe.yaml\nservices:\n" + svc.String()
+		files["inc/res.yaml"] = resources
+		dotenv, dotenv2, probeVar := "", "", ""
+		for _, o := range append(append([]c20obj{}, m.secrets...), m.configs...) {
+			if o.kind == "file" {
+				delete(files, o.name+".txt")
+				files["inc/"+o.name+".txt"] = "file content of " + o.name
+			}
+			if o.kind == "environment" && c20plain.MatchString(o.canary) {
+				dotenv += o.envVar + "=" + o.canary + "\n"
+				dotenv2 += o.envVar + "=siblingvalue\n"
+				delete(env, o.envVar)
+				if probeVar == "" && strings.HasPrefix(o.name, "s") {
+					probeVar = o.envVar
+				}
+			}
+		}
+		files["inc/.env"] = dotenv + "UNRELATED=1\n"
+		files["inc2/.env"] = dotenv2
+		if probeVar == "" {
+			probeVar = "NOWHERE_DEFINED"
+		}
+		files["inc2/probe.yaml"] = "secrets:\n  probe: {environment: " + probeVar + "}\n"
+		s.Main = []string{"compose.yaml"}
 	}
 	return s
 }
@@ -183,7 +210,7 @@ func c20models(quick bool) []c20model {
 					continue
 				}
 				for ref := 0; ref < 3; ref++ {
-					for _, del := range []string{"main", "override", "include", "include-own-env"} {
+					for _, del := range []string{"main", "override", "include", "include-own-env", "two-includes"} {
 						if quick && ns == 3 && (ref != 0 || del != "main") {
 							continue
 						}
@@ -401,6 +428,16 @@ func (c20) Run(c *core.Ctx) {
 				return core.Outcome{Class: "load-failed", Trivial: true}
 			}
 			// value available on the project
+			if pr, ok := p.Secrets["probe"]; ok && m.delivery == "two-includes" {
+				want := ""
+				if pr.Environment != "NOWHERE_DEFINED" {
+					want = "siblingvalue"
+				}
+				if pr.Content != want {
+					return core.Outcome{Class: "probe", Sample: sample, Viol: &core.Violation{Key: "secret-value-from-another-include",
+						Msg: fmt.Sprintf("%s: secret probe of the second included project (environment: %s) has content %q, expected %q from that project's own .env", m.id, pr.Environment, trunc(pr.Content, 40), want)}}
+				}
+			}
 			for _, o := range m.secrets {
 				if o.kind == "environment" && p.Secrets[o.name].Content != o.canary {
 					return core.Outcome{Class: "content-missing", Sample: sample, Viol: &core.Violation{Key: "content-not-on-project",
